@@ -5,4 +5,5 @@ export PYTHONPATH="/repo/src:$(pwd)"
 export PYTHONWARNINGS="ignore"
 export PATH="/opt/veriftools/lean/bin:$PATH"
 /venv/bin/python -m harness.extract_tables || exit 2
+python3 gen_root.py || exit 2
 cd lean && lake build Rpft rpft_driver
